@@ -245,6 +245,8 @@ pub fn par_shards(
     f: impl Fn(usize, &mut Report) + Send + Sync + 'static,
 ) -> Report {
     let f = std::sync::Arc::new(f);
+    // the calling thread only waits from here on
+    crate::engine::note_current("done", "");
     let mut handles = Vec::new();
     for shard in 0..n {
         let f = f.clone();
@@ -256,6 +258,7 @@ pub fn par_shards(
                     crate::engine::install_gc_observer();
                     let mut r = Report::new(&prop, level, &rule);
                     f(shard, &mut r);
+                    crate::engine::note_current("done", "");
                     r
                 })
                 .expect("spawn"),
